@@ -415,8 +415,8 @@ class BulkObservables:
         if num_events == 0:
             return 0
 
-        pT_sum = 0.0
-        particle_counter = 0
+        mean_sum = 0.0
+        event_counter = 0
 
         for event in self.particle_objects:
             if len(event) > 0:
@@ -426,16 +426,23 @@ class BulkObservables:
                     )
                 break
 
-        # Fill histograms
+        # Average the per-event means; an event without particles in the
+        # window has no mean and does not enter the average
         for event in self.particle_objects:
-            for particle in event:
-                particle_counter += 1
-                if -y_width / 2 <= getattr(particle, quantity)() <= y_width / 2:
-                    pT_sum += particle.pT_abs()
-            pT_sum /= particle_counter
+            pT_sum = 0.0
             particle_counter = 0
+            for particle in event:
+                if -y_width / 2 <= getattr(particle, quantity)() <= y_width / 2:
+                    particle_counter += 1
+                    pT_sum += particle.pT_abs()
+            if particle_counter > 0:
+                mean_sum += pT_sum / particle_counter
+                event_counter += 1
 
-        return pT_sum / num_events
+        if event_counter == 0:
+            return 0
+
+        return mean_sum / event_counter
 
     def mid_rapidity_mean_mT(
         self, y_width: float = 1.0, quantity: str = "rapidity"
@@ -471,8 +478,8 @@ class BulkObservables:
         if num_events == 0:
             return 0
 
-        pT_sum = 0.0
-        particle_counter = 0
+        mean_sum = 0.0
+        event_counter = 0
 
         for event in self.particle_objects:
             if len(event) > 0:
@@ -482,13 +489,20 @@ class BulkObservables:
                     )
                 break
 
-        # Fill histograms
+        # Average the per-event means; an event without particles in the
+        # window has no mean and does not enter the average
         for event in self.particle_objects:
-            for particle in event:
-                particle_counter += 1
-                if -y_width / 2 <= getattr(particle, quantity)() <= y_width / 2:
-                    pT_sum += particle.mT()
-            pT_sum /= particle_counter
+            pT_sum = 0.0
             particle_counter = 0
+            for particle in event:
+                if -y_width / 2 <= getattr(particle, quantity)() <= y_width / 2:
+                    particle_counter += 1
+                    pT_sum += particle.mT()
+            if particle_counter > 0:
+                mean_sum += pT_sum / particle_counter
+                event_counter += 1
 
-        return pT_sum / num_events
+        if event_counter == 0:
+            return 0
+
+        return mean_sum / event_counter
